@@ -82,7 +82,7 @@ Proof.
   pose proof (hv_good _ _ HI) as G. pose proof (hv_good _ _ HI') as G'.
   destruct (log_step cfg o s) as [E|(ev0 & E & OK)].
   - constructor; rewrite E; [|assumption].
-    intros e IN. eapply st_keep; eauto.
+    intros e IN. apply (st_keep s _ e G OPS). apply KS, IN.
   - (* a handshake completed: its tunnel is established now, and was pending or unknown before *)
     assert (NEW : st_of (hm (fst (hstep cfg o s))) (e_id ev0) = Some Main /\
                   st_of (hm s) (e_id ev0) <> Some Main /\ st_of (hm s) (e_id ev0) <> Some Dead).
@@ -126,9 +126,77 @@ Proof.
           rewrite SN. split; discriminate. }
     destruct NEW as (N1 & N2 & N3).
     constructor; rewrite E.
-    + intros e IN. apply in_app_or in IN as [IN|[<-|[]]]; [eapply st_keep; eauto|now left].
+    + intros e IN. apply in_app_or in IN as [IN|[<-|[]]]; [apply (st_keep s _ e G OPS); apply KS, IN|now left].
     + rewrite map_app. cbn [map]. apply NoDup_snoc; [assumption|].
       intros IN. apply in_map_iff in IN as (e & EQ & IN). destruct (KS _ IN) as [M|D]; rewrite EQ in *; contradiction.
+Qed.
+
+Lemma K_run ops : forall s, HInv cfg s -> K s -> K (hrun cfg s ops).
+Proof.
+  induction ops as [|o r IH]; intros s HI KK; cbn [hrun]; [assumption|].
+  apply IH; [now apply hinv_step|now apply K_step].
+Qed.
+
+Theorem K_reachable ops : K (hrun cfg hinit ops).
+Proof. apply K_run; [apply hinv_init|apply K_init]. Qed.
+
+Lemma log_prefix ops : forall s, exists l, log (hrun cfg s ops) = log s ++ l.
+Proof.
+  induction ops as [|o r IH]; intros s; cbn [hrun]; [exists []; now rewrite app_nil_r|].
+  destruct (IH (fst (hstep cfg o s))) as [l L]. rewrite L.
+  destruct (log_step cfg o s) as [E|(e & E & _)]; rewrite E.
+  - eauto.
+  - exists ([e] ++ l). now rewrite app_assoc.
+Qed.
+
+Lemma nodup_id_inj (l : list ev) e1 e2 :
+  NoDup (map e_id l) -> In e1 l -> In e2 l -> e_id e1 = e_id e2 -> e1 = e2.
+Proof.
+  induction l as [|x r IH]; intros ND I1 I2 EQ; [destruct I1|].
+  cbn [map] in ND. inversion ND as [|? ? NI ND']; subst.
+  destruct I1 as [<-|I1], I2 as [<-|I2]; auto.
+  - exfalso. apply NI. rewrite EQ. now apply in_map.
+  - exfalso. apply NI. rewrite <- EQ. now apply in_map.
+Qed.
+
+(* A stage 1 that was accepted - it created tunnel [id] - delivered again (any sender, any index candidates, even
+   with other header fields) after ANY continuation [ops2], while tunnel [id] is still in Indexes: nothing is
+   created, the hostmap state is unchanged, and the stored stage-2 reply of a held tunnel with this payload is
+   resent (preceded by at most one test request). *)
+Theorem replay_history ops1 ops2 pkt cs ridx t a0 rest v id cs2 ridx2 t2 v2 :
+  let s1 := hrun cfg hinit ops1 in
+  let r1 := hstep cfg (RespStage1 pkt cs ridx t (a0 :: rest) v) s1 in
+  log (fst r1) = log s1 ++ [mkEv id false pkt t (a0 :: rest) None] ->
+  let s2 := hrun cfg (fst r1) ops2 in
+  (exists hi, mget id (infos (hm s2)) = Some hi /\ mget (hi_local hi) (idx (hm s2)) = Some id) ->
+  gen_index cs2 <> None ->
+  exists x pre, In x (get_list (hm s2) a0) /\ seen s2 pkt x = true /\
+    let r := hstep cfg (RespStage1 pkt cs2 ridx2 t2 (a0 :: rest) v2) s2 in
+    hm (fst r) = hm s2 /\ nxt (fst r) = nxt s2 /\ log (fst r) = log s2 /\
+    snd r = pre ++ [OStage2 x v2] /\ (pre = [] \/ exists q u, pre = [OTest q u]).
+Proof.
+  intros s1 r1 LG s2 (hi & E1 & E2) GI.
+  set (ops := ops1 ++ RespStage1 pkt cs ridx t (a0 :: rest) v :: ops2).
+  assert (ES : s2 = hrun cfg hinit ops).
+  { unfold ops. rewrite hrun_app. cbn [hrun]. reflexivity. }
+  pose proof (hinv_reachable cfg ops) as HI. pose proof (K_reachable ops) as KK. rewrite <- ES in HI, KK.
+  pose proof (good_WF _ (hv_good _ _ HI)) as W.
+  (* the log entry of [id] in s2 is the one written when the stage 1 was accepted *)
+  destruct (hv_j _ _ HI _ _ E1 E2) as (e & IN & EID & EA & (r & EX) & NE & NS & _).
+  destruct (log_prefix ops2 (fst r1)) as [l L]. fold s2 in L.
+  assert (IN0 : In (mkEv id false pkt t (a0 :: rest) None) (log s2)).
+  { rewrite L, LG. apply in_or_app. left. apply in_or_app. right. now left. }
+  assert (EE : e = mkEv id false pkt t (a0 :: rest) None).
+  { apply (nodup_id_inj (log s2)); auto. apply (k_nodup _ KK). }
+  subst e. cbn [e_cert e_init e_pkt e_time] in *.
+  assert (SE : seen s2 pkt id = true).
+  { unfold seen, hx_of. rewrite EX. cbn [x_init x_pkt0]. now rewrite N.eqb_refl. }
+  assert (INL : In id (get_list (hm s2) a0)).
+  { destruct (wf_idx _ W _ _ E2) as (hi' & F1 & _ & F3). rewrite E1 in F1. inversion F1; subst hi'.
+    apply F3. rewrite EA. now left. }
+  pose proof (replay_noop cfg ops pkt cs2 ridx2 t2 a0 rest v2 id) as RN. cbn zeta in RN. rewrite <- ES in RN.
+  destruct (RN NS GI INL SE) as (x & pre & A & B & C & D & F & _ & _ & _ & G & H).
+  exists x, pre. auto 10.
 Qed.
 
 End Hist.
